@@ -107,15 +107,36 @@ def Accepted (cfg : List (Kind × Nat)) (tr : List Obs) (s : State) : Prop :=
 theorem inv_accepted (cfg : List (Kind × Nat)) (tr : List Obs) (s : State) (h : Accepted cfg tr s) : Inv s :=
   inv_run? step? Inv inv_step tr (init cfg) s (inv_init cfg) h
 
-/-- **At most two reads in progress.**  After every accepted trace at most `parallel_reads` (= 2)
-reads are between their GroupValueRead and their completion (answer or time-out) — including reads
-whose tracker has meanwhile been cancelled. -/
+theorem slots_accepted (cfg : List (Kind × Nat)) (tr : List Obs) (s : State) (h : Accepted cfg tr s) : Slots s :=
+  inv_run? step? Slots (fun s o s' hi hs => slots_step hs hi) tr (init cfg) s (by simp [init, Slots]) h
+
+/-- **At most two reads in progress.**  After every accepted trace every read in progress holds one of the
+`parallel_reads` (= 2) read slots, so at most two reads are between their GroupValueRead and their completion
+(answer or time-out) — including reads whose tracker has meanwhile been cancelled. -/
 theorem at_most_two_reads_in_progress (cfg : List (Kind × Nat)) (tr : List Obs) (s : State)
-    (h : Accepted cfg tr s) : s.inflight.length ≤ 2 := by
-  have : parallelReads = 2 := by decide
-  rw [← this]
-  exact inv_run? step? (fun s => s.inflight.length ≤ parallelReads)
-    (fun s o s' hi hs => inflight_step hs hi) tr (init cfg) s (by simp [init]) h
+    (h : Accepted cfg tr s) : s.inflight.length ≤ s.held ∧ s.held ≤ 2 ∧ s.inflight.length ≤ 2 := by
+  have hp : parallelReads = 2 := by decide
+  have := slots_accepted cfg tr s h
+  unfold Slots at this
+  omega
+
+/-- **Slot accounting.**  Whenever the clock advances (the system is at rest): the slots held beyond the reads
+in progress belong to trackers that want to read and wait for the outgoing queue to drain — there are no more
+of them than such trackers (no slot is lost when a waiting tracker is cancelled), none at all when the outgoing
+queue is idle, and no slot stays free while a tracker wants to read. -/
+theorem slot_accounting_at_rest (cfg : List (Kind × Nat)) (tr : List Obs) (t : Nat) (s : State)
+    (h : Accepted cfg (tr ++ [.adv t]) s) :
+    ∃ s1, Accepted cfg tr s1 ∧ s1.held - s1.inflight.length ≤ dueCount s1 ∧
+      (s1.held < 2 → dueCount s1 ≤ s1.held - s1.inflight.length) ∧
+      (s1.qbusy = false → s1.held = s1.inflight.length) := by
+  obtain ⟨s1, h1, h2⟩ := run?_append_some step? h
+  rw [run?_singleton] at h2
+  have hp : parallelReads = 2 := by decide
+  simp only [step?] at h2
+  split at h2
+  · rename_i hc
+    exact ⟨s1, h1, hc.2.2.1, by rw [← hp]; exact hc.2.2.2.1, fun hq => (hc.2.2.2.2 hq).1⟩
+  · simp at h2
 
 /-- **No read unless connected, registered and tracking.**  A `read i` is accepted only when the
 updater is started (connected), value `i` is registered with a tracker (state address and
@@ -193,19 +214,19 @@ theorem no_read_while_unregistered (cfg : List (Kind × Nat)) (a b : List Obs) (
   have := (read_requires h4).2.2.1
   rw [hs3] at this; simp at this
 
-/-- **Reads are not delayed.**  The clock advances only when no read is due: if time passes while a
-started, registered tracker still waits for its (initial or periodic) read, then two reads are in
-progress. -/
+/-- **Reads are not delayed.**  The clock advances only when no read is due: if time passes while the outgoing
+queue is idle and a started, registered tracker still waits for its (initial or periodic) read, then two
+reads are in progress.  (While the outgoing queue is busy the trackers wait for it with their slot.) -/
 theorem due_read_not_delayed (cfg : List (Kind × Nat)) (tr : List Obs) (t : Nat) (s : State)
     (h : Accepted cfg (tr ++ [.adv t]) s) :
-    ∃ s1, Accepted cfg tr s1 ∧ ∀ i, i < s1.n → active s1 i = true →
+    ∃ s1, Accepted cfg tr s1 ∧ (s1.qbusy = false → ∀ i, i < s1.n → active s1 i = true →
       ((∃ b, (s1.trs i).phase = .want b) ∨ (∃ d, (s1.trs i).phase = .sleeping d ∧ d < t)) →
-      s1.inflight.length = 2 := by
+      s1.inflight.length = 2) := by
   obtain ⟨s1, h1, h2⟩ := run?_append_some step? h
   rw [run?_singleton] at h2
   refine ⟨s1, h1, ?_⟩
-  intro i hi hact hph
-  have hle := at_most_two_reads_in_progress cfg tr s1 h1
+  intro hq i hi hact hph
+  have hle := (at_most_two_reads_in_progress cfg tr s1 h1).2.2
   have hp : parallelReads = 2 := by decide
   simp only [step?] at h2
   split at h2
@@ -213,7 +234,7 @@ theorem due_read_not_delayed (cfg : List (Kind × Nat)) (tr : List Obs) (t : Nat
     apply Classical.byContradiction
     intro hne
     have hlt : s1.inflight.length < parallelReads := by omega
-    have hall := hc.2.2 hlt
+    have hall := (hc.2.2.2.2 hq).2 hlt
     rw [List.all_eq_true] at hall
     have hd := hall i (by simp [hi])
     have : dueBefore s1 i t = true := by
@@ -427,25 +448,45 @@ theorem init_done_after_initial_read (s1 s2 : State) (i : Nat) (e : Fl)
 /-- three `expire 1 min` values, nobody answers: two reads at once, the third waits for a slot; a telegram
 on the main address of value 0 restarts its timer but does not free the slot. -/
 def ex1 : List Obs :=
-  [.reg 0, .reg 1, .reg 2, .begin, .conn 2, .read 0, .read 1, .adv 500000, .upd 0 false, .adv 2000000,
-   .done 0, .done 1, .read 2, .adv 4000000, .done 2, .adv 60500000, .read 0, .adv 62000000, .read 1,
-   .adv 62500000, .done 0, .adv 64000000, .done 1, .read 2, .conn 0, .adv 66000000, .done 2, .conn 2,
-   .read 0, .read 1, .stop]
+  [.reg 0, .reg 1, .reg 2, .begin, .conn 2, .sa, .sa, .read 0, .read 1, .qb, .qi, .adv 500000, .upd 0 false,
+   .adv 2000000, .done 0, .sr, .done 1, .sr, .sa, .read 2, .qb, .qi, .adv 4000000, .done 2, .sr, .conn 0, .adv 5000000,
+   .conn 2, .sa, .sa, .read 0, .read 1, .qb, .qi, .adv 5100000, .stop, .qb, .qi]
 
 example : accepts [(.expire, 60000000), (.expire, 60000000), (.expire, 60000000)] ex1 = true := by decide
-/-- a third read while two are in progress is rejected (the behaviour before the fix) -/
+
+/-- busy outgoing queue (rate limit 10/s, burst of writes): the connection comes up, two trackers take the slots
+and wait for the queue; the connection is lost before it has drained (both slots come back); after the
+reconnection on an idle bus all three values are read. -/
+def ex2 : List Obs :=
+  [.reg 0, .reg 1, .reg 2, .begin, .qb, .adv 50000, .conn 2, .sa, .sa, .adv 150000, .conn 0, .sr, .sr, .adv 500000, .qi,
+   .adv 3150000, .conn 2, .sa, .sa, .read 0, .read 1, .qb, .adv 3151000, .upd 0 true, .upd 1 true, .done 0, .sr, .done 1,
+   .sr, .sa, .adv 3250000, .qi, .read 2, .qb, .adv 3251000, .upd 2 true, .done 2, .sr, .adv 3350000, .qi, .adv 8150000,
+   .stop, .qb, .qi]
+
+example : accepts [(.init, 3600000000), (.expire, 60000000), (.every, 60000000)] ex2 = true := by decide
+/-- the same history with the two slots NOT coming back when the waiting trackers are cancelled (a lost
+`release()` on cancellation) is rejected as soon as the clock advances -/
+example : accepts [(.init, 3600000000), (.expire, 60000000), (.every, 60000000)]
+    [.reg 0, .reg 1, .reg 2, .begin, .qb, .adv 50000, .conn 2, .sa, .sa, .adv 150000, .conn 0, .adv 500000] = false := by decide
+/-- … and so is an updater that stays silent after a reconnection on an idle bus -/
+example : accepts [(.init, 3600000000), (.expire, 60000000), (.every, 60000000)]
+    [.reg 0, .reg 1, .reg 2, .begin, .conn 2, .adv 1] = false := by decide
+/-- a third read while two are in progress, a read without a slot, a slot released before its read is done -/
 example : accepts [(.expire, 60000000), (.expire, 60000000), (.expire, 60000000)]
-    [.reg 0, .reg 1, .reg 2, .begin, .conn 2, .read 0, .read 1, .adv 500000, .upd 0 false, .read 2] = false := by decide
+    [.reg 0, .reg 1, .reg 2, .begin, .conn 2, .sa, .sa, .read 0, .read 1, .adv 500000, .upd 0 false, .sa] = false := by decide
+example : accepts [(.expire, 60000000)] [.reg 0, .begin, .conn 2, .read 0] = false := by decide
+example : accepts [(.expire, 60000000)] [.reg 0, .begin, .conn 2, .sa, .read 0, .sr] = false := by decide
 /-- a read while disconnected, for an unregistered value, or before the interval is over is rejected -/
-example : accepts [(.every, 60000000)] [.reg 0, .begin, .conn 2, .read 0, .conn 1, .adv 2000000, .done 0, .read 0] = false := by decide
-example : accepts [(.every, 60000000)] [.begin, .conn 2, .read 0] = false := by decide
+example : accepts [(.every, 60000000)]
+    [.reg 0, .begin, .conn 2, .sa, .read 0, .conn 1, .adv 2000000, .done 0, .sr, .sa, .read 0] = false := by decide
+example : accepts [(.every, 60000000)] [.begin, .conn 2, .sa, .read 0] = false := by decide
 example : accepts [(.expire, 60000000)]
-    [.reg 0, .begin, .conn 2, .read 0, .adv 1000, .upd 0 true, .done 0, .adv 60000999, .read 0] = false := by decide
+    [.reg 0, .begin, .conn 2, .sa, .read 0, .adv 1000, .upd 0 true, .done 0, .sr, .adv 60000999, .sa, .read 0] = false := by decide
 example : accepts [(.expire, 60000000)]
-    [.reg 0, .begin, .conn 2, .read 0, .adv 1000, .upd 0 true, .done 0, .adv 60001000, .read 0] = true := by decide
+    [.reg 0, .begin, .conn 2, .sa, .read 0, .adv 1000, .upd 0 true, .done 0, .sr, .adv 60001000, .sa, .read 0] = true := by decide
 /-- a missing initial read is rejected as soon as the clock advances; an `init` value is not read twice -/
 example : accepts [(.init, 60000000)] [.reg 0, .begin, .conn 2, .adv 1] = false := by decide
 example : accepts [(.init, 60000000)]
-    [.reg 0, .begin, .conn 2, .read 0, .adv 2000000, .done 0, .adv 90000000, .read 0] = false := by decide
+    [.reg 0, .begin, .conn 2, .sa, .read 0, .adv 2000000, .done 0, .sr, .adv 90000000, .sa, .read 0] = false := by decide
 
 end XknxVerif.Props.C35
